@@ -40,6 +40,32 @@ ALLOWED_AXIOMS = ()
 PFX = "C09-"
 PROFILES = ["STRICT", "STANDARD", "LENIENT", "ULTRA"]
 F_NONFINITE = "C09-nonfinite-float-kind"
+F_BLANKFM = "C09-blank-frontmatter-unloadable"
+
+
+def blank_unloadable_front(text):
+    """clause of C09-blank-frontmatter-unloadable: the document carries a frontmatter block that is whitespace only (so that the
+    canonical text drops it) and that yaml.safe_load rejects (TAB, VT, FF ...)"""
+    import yaml
+    from octave_mcp.core.parser import parse_with_warnings
+    try:
+        raw = parse_with_warnings(text)[0].raw_frontmatter
+    except Exception:  # noqa
+        return False
+    if raw is None or raw.strip() != "":
+        return False
+    try:
+        yaml.safe_load(raw)
+        return False
+    except yaml.YAMLError:
+        return True
+
+
+def only_fm_pairs_differ(a, b):
+    """the two observations agree once the E_FM_* pairs (and the status they imply) are set aside"""
+    def strip(o):
+        return [[list(p) for p in x if not str(p[0]).startswith("E_FM_")] for x in o if isinstance(x, list)]
+    return strip(a) == strip(b)
 
 
 # =====================================================================================================
@@ -74,8 +100,9 @@ def gen_schema(rng, si):
     ptargets = ["ARCHIVE"] if rng.random() < 0.3 else []
     default = rng.choice([None, None, None, "RISK_LOG", "CUSTOMX"])
     fm = []
-    if rng.random() < 0.15:
-        fm = [("name", True, "STRING")] + ([("tags", False, "LIST")] if rng.random() < 0.5 else [])
+    if rng.random() < 0.3:           # FRONTMATTER block: required + optional fields, or all-optional
+        fm = rng.choice([[("name", True, "STRING")], [("name", True, "STRING"), ("tags", False, "LIST")], [("tags", False, "LIST")],
+                         [("version", False, "STRING"), ("tags", False, "LIST")], [("name", True, "STRING"), ("flag", True, "BOOLEAN")]])
     return {"name": name, "policy": policy, "fields": fields, "ptargets": ptargets, "default": default, "fm": fm}
 
 
@@ -205,9 +232,18 @@ def gen_doc(rng, g, s):
         d["trailing"] = []
     if rng.random() < 0.5:
         d["meta"] = gen_meta_builtin(rng, g)
-    if s["fm"] and d["grammar"] is None and rng.random() < 0.7:
-        d["front"] = rng.choice(["name: Agent (x)", "name: [1]\ntags: x", "tags: [a, b]", "a: 1\nb: [2]", "name: x\ntags: [q]"])
+    # frontmatter variants: mapping (good / wrong types / other keys), scalar, list, comment only, broken YAML; absent otherwise.
+    # (a BLANK frontmatter block is a lenient spelling of "absent": the canonical text drops it -- added per respelling in build_texts)
+    if d["grammar"] is None and rng.random() < (0.7 if s["fm"] else 0.2):
+        d["front"] = rng.choice(FRONT_VARIANTS)
+    elif d["grammar"] is None and rng.random() < 0.5:
+        d["front"] = None
     return d
+
+
+FRONT_VARIANTS = ["name: Agent (x)", "name: [1]\ntags: x", "tags: [a, b]", "a: 1\nb: [2]", "name: x\ntags: [q]", "name: x\nflag: true\nversion: \"1\"",
+                  "name: skill\ndescription: d\nallowed-tools: [Read]", "just text", "- a\n- b", "# only a comment", "name: [x", "42", "flag: yes\nname: 1"]
+BLANK_FRONTS = ["---\n---\n", "---\n\n---\n", "---\n  \n---\n\n", "---\n---\n\n\n", "--- \n\t\n---\n"]
 
 
 # ---- number lexemes -----------------------------------------------------------------------------
@@ -492,9 +528,9 @@ class Tally:
         d = self.hists.setdefault(name, {})
         d[str(bucket)] = d.get(str(bucket), 0) + n
 
-    def fail(self, case, what):
+    def fail(self, case, what, finding=None):
         if len(self.failures) < 6:
-            self.failures.append((case, what))
+            self.failures.append((case, what, finding))
         else:
             self.hist("failures_not_reported_in_detail", what.split(":")[0])
 
@@ -513,6 +549,10 @@ def build_texts(d, seed, reps, tally):
             rng.random = lambda: 0.0           # the corner where every freedom is taken
         d2, nsites = respell_numbers(d, rng)
         t, _, sites = render.render(d2, rng)
+        if d["front"] is None and d["grammar"] is None and rng.random() < 0.35:
+            t = rng.choice(BLANK_FRONTS) + t          # a blank YAML frontmatter block: dropped by canonicalisation
+            sites += 1
+            tally.hist("blank_frontmatter_respellings", "yes")
         texts.append(("spell%d" % k, t))
         tally.hist("lenient_sites", min((sites + nsites) // 20 * 20, 300))
         tally.hist("number_respellings", min(nsites, 5))
@@ -557,6 +597,8 @@ def work(case):
             tally.hist("text_skipped", "rejected:" + type(e).__name__)
             continue
         got = json.loads(json.dumps(got))          # plain JSON types on both sides (content, not Python classes)
+        if isinstance(got.get("front"), str) and got["front"].strip() == "" and exp.get("front") is None:
+            got["front"] = None                        # blank frontmatter block = lenient spelling of "no frontmatter"
         if docprops.first_diff(exp, got) or docprops.first_diff(got, exp):
             tally.hist("text_skipped", "content-differs")
             continue
@@ -627,8 +669,9 @@ def work(case):
                     tally.hist("surface_reports_no_validation", k)
                     continue
                 if v != b:
+                    fid = F_BLANKFM if (blank_unloadable_front(tdict[label]) and only_fm_pairs_differ(b, v)) else None
                     tally.fail(dict(base_case, surface=k, text_a=tdict["canon"], label_b=label, text_b=tdict[label], observed_a=b, observed_b=v, doc=d),
-                               "%s: a respelling / the canonical text is validated differently" % k.split(":")[0])
+                               "%s: a respelling / the canonical text is validated differently" % k.split(":")[0], finding=fid)
     if case["id"] == 0:
         out["sample"] = {"schema": case["schema_text"], "texts": texts[:3], "observed_on_canonical": base}
     out["canon_text"] = tdict.get("canon")
@@ -788,6 +831,145 @@ def work_reuse(case):
 
 
 # =====================================================================================================
+# tool instance reuse: ONE ValidateTool / ONE WriteTool serve a whole sequence of calls (as the MCP server keeps them)
+# =====================================================================================================
+REPAIR_FIELDS = [
+    ("STATUS", [("REQ",), ("ENUM", ["ACTIVE", "ACTIVATING", "DONE"])], ["active", "done", "Active", "ACTIVE", "bogus"]),
+    ("KIND", [("OPT",), ("ENUM", ["A", "B"])], ["a", "b", "A", "c"]),
+    ("COUNT", [("REQ",), ("TYPE", "NUMBER")], ["5", "42", 7, "x", "3.5"]),
+    ("RATIO", [("OPT",), ("TYPE", "NUMBER"), ("RANGE", 1, 10)], ["5", 5, "11", 2.5]),
+    ("NAME", [("OPT",), ("TYPE", "STRING")], ["bob", 3, "x y"]),
+    ("MODE", [("OPT",), ("ENUM", ["X"]), ("TYPE", "STRING")], ["x", "X", "y"]),
+]
+
+
+def gen_repair_schema(rng, si):
+    k = rng.randint(2, 4)
+    picks = rng.sample(REPAIR_FIELDS, k)
+    return {"name": "VERIFC09_T%d" % si, "policy": rng.choice(["REJECT", "IGNORE", None]), "fields": [(f, ch, "SELF") for f, ch, _ in picks],
+            "ptargets": [], "default": None, "fm": [], "pools": {f: pool for f, _, pool in picks}}
+
+
+def gen_repair_doc(rng, g, s):
+    """a small document whose validated block (mostly) HAS a schema repair available: an enum member in another case, a numeral
+    written as a string"""
+    children = []
+    for f, ch, _ in s["fields"]:
+        if "REQ" not in [c[0] for c in ch] and rng.random() < 0.25:
+            continue
+        pool = s["pools"][f]
+        v = pool[0] if rng.random() < 0.55 else rng.choice(pool)
+        children.append(("a", f, neutral_of(v), [], g.trailing()))
+    rng.shuffle(children)
+    if not children:
+        children = [("a", s["fields"][0][0], neutral_of(s["pools"][s["fields"][0][0]][0]), [], None)]
+    d = g.doc()
+    secs = [x for x in d["sections"] if x[0] == "a" and x[2][0] not in ("zone", "holo", "list")][:2] + [("b", s["name"], None, children, [])]
+    rng.shuffle(secs)
+    d["sections"] = secs
+    d["trailing"], d["front"], d["grammar"] = [], None, None
+    d["meta"] = [("TYPE", ("v", ("str", "TEST")))]
+    return d
+
+
+def _env(r):
+    """the observable part of a tool envelope (status, validation status, pairs, canonical / hash, repair rule ids)"""
+    if not isinstance(r, dict):
+        return repr(r)
+    return {"status": r.get("status"), "validation_status": r.get("validation_status"), "valid": r.get("valid"),
+            "validation_errors": _pairs(r.get("validation_errors")), "warnings": _pairs(r.get("warnings")),
+            "canonical": r.get("canonical"), "canonical_hash": r.get("canonical_hash"),
+            "repairs": sorted(str(x.get("rule_id") or x.get("code") or x.get("type")) for x in (r.get("repairs") or r.get("corrections") or []) if isinstance(x, dict))}
+
+
+def tool_sequence(name, calls, tmpdir):
+    """calls: [{tool: validate|write, text, fix|lenient, profile}] on ONE ValidateTool and ONE WriteTool; every response is compared
+    with what a FRESH instance returns for the same call; fix=False validate calls must return emit(parse_with_warnings(text)[0])"""
+    from octave_mcp.core.emitter import emit
+    from octave_mcp.core.parser import parse_with_warnings
+    from octave_mcp.mcp.validate import ValidateTool
+    from octave_mcp.mcp.write import WriteTool
+    vt, wt = ValidateTool(), WriteTool()
+    target = os.path.join(tmpdir, "ts_%d.oct.md" % os.getpid())
+    steps = []
+    for k, c in enumerate(calls):
+        if c["tool"] == "validate":
+            kw = dict(content=c["text"], schema=name, profile=c["profile"], fix=c["fix"])
+            got = _run(vt.execute(**kw))
+            fresh = _run(ValidateTool().execute(**kw))
+        else:
+            kw = dict(target_path=target, content=c["text"], schema=name, corrections_only=True, lenient=c["lenient"])
+            got = _run(wt.execute(**kw))
+            fresh = _run(WriteTool().execute(**kw))
+        a, b = _mask(got), _mask(fresh)
+        diff = sorted(k2 for k2 in set(a) | set(b) if a.get(k2) != b.get(k2)) if isinstance(a, dict) and isinstance(b, dict) else ["<envelope>"]
+        readonly_broken = False
+        repaired = False
+        if c["tool"] == "validate" and got.get("status") == "success":
+            plain = emit(parse_with_warnings(c["text"])[0])
+            if not c["fix"]:
+                readonly_broken = got.get("canonical") != plain
+            else:
+                repaired = fresh.get("canonical") != plain
+        steps.append({"step": k, "diff": diff, "readonly_broken": readonly_broken, "repaired": repaired, "got": _env(got), "fresh": _env(fresh)})
+    return steps
+
+
+def judge_toolseq(case, steps, fail, hist):
+    base = {"schema": case["schema_text"], "schema_name": case["schema"], "calls": case["calls"], "kind": "tool-reuse"}
+    for st in steps:
+        c = case["calls"][st["step"]]
+        hist("toolseq_call", "%s %s" % (c["tool"], ("fix=%s" % c["fix"]) if c["tool"] == "validate" else ("lenient=%s" % c["lenient"])))
+        if st["repaired"]:
+            hist("toolseq_fix_call_repaired_something", "yes")
+        hist("toolseq_status", str(st["fresh"]["validation_status"]) if isinstance(st["fresh"], dict) else "?")
+        if st["readonly_broken"]:
+            fail(dict(base, step=st["step"], text=c["text"], returned_canonical=st["got"]["canonical"]),
+                 "tool-reuse: fix off, yet the canonical text returned differs from emit(parse_with_warnings(x)[0]) (after earlier calls on the same tool instance)")
+        if st["diff"]:
+            fail(dict(base, step=st["step"], text=c["text"], differing_keys=st["diff"], response=st["got"], response_of_fresh_instance=st["fresh"]),
+                 "tool-reuse: the response of a long-lived tool instance differs from the response of a fresh instance for the same call: " + ", ".join(st["diff"]))
+
+
+def work_toolseq(case):
+    tally = Tally()
+    try:
+        steps = tool_sequence(case["schema"], case["calls"], _WORK["root"])
+    except Exception as e:  # noqa
+        import traceback
+        tally.fail({"schema": case["schema_text"], "schema_name": case["schema"], "calls": case["calls"], "kind": "tool-reuse"},
+                   "tool-reuse: raised %s: %s | %s" % (type(e).__name__, e, traceback.format_exc(limit=3)[-300:]))
+        steps = []
+    judge_toolseq(case, steps, tally.fail, tally.hist)
+    return {"hists": tally.hists, "count": 2 * len(steps), "failures": tally.failures, "steps": len(steps),
+            "sample": ({"schema": case["schema_text"], "calls": case["calls"][:4], "steps": steps[:4]} if case["id"] == 0 else None)}
+
+
+def gen_tool_calls(rng, texts_by_doc):
+    """texts_by_doc: [[canonical, respelling, ...], ...] -> an interleaving of fix on/off, identical / respelled texts, both tools"""
+    calls = []
+    for texts in texts_by_doc:
+        t0 = texts[0]
+        prof = rng.choice(PROFILES)
+        calls += [{"tool": "validate", "text": t0, "fix": False, "profile": prof},
+                  {"tool": "validate", "text": t0, "fix": True, "profile": rng.choice(PROFILES)},
+                  {"tool": "validate", "text": t0, "fix": False, "profile": prof}]
+        for t in texts[1:]:
+            calls.append({"tool": "validate", "text": t, "fix": rng.random() < 0.3, "profile": prof})
+        calls.append({"tool": "write", "text": t0, "lenient": True})
+        calls.append({"tool": "write", "text": rng.choice(texts), "lenient": False})
+        calls.append({"tool": "validate", "text": t0, "fix": False, "profile": prof})
+    # a second pass in another order: identical texts again, long after the fix=True calls
+    extra = []
+    for texts in texts_by_doc:
+        extra.append({"tool": "validate", "text": texts[0], "fix": False, "profile": rng.choice(PROFILES)})
+        extra.append({"tool": "write", "text": texts[0], "lenient": False})
+        extra.append({"tool": "validate", "text": rng.choice(texts), "fix": rng.random() < 0.5, "profile": "STANDARD"})
+    rng.shuffle(extra)
+    return calls + extra
+
+
+# =====================================================================================================
 # main process
 # =====================================================================================================
 def dec_pairs(t):
@@ -877,12 +1059,22 @@ def run_corpus(ctx, root):
         name = rec["schema_name"]
         if rec.get("schema_text"):
             write_schema(root, name, rec["schema_text"])
+        if rec.get("kind") == "tool-reuse":
+            case = {"schema": name, "schema_text": rec.get("schema_text"), "calls": rec["calls"]}
+            steps = tool_sequence(name, rec["calls"], root)
+            ctx.count(2 * len(steps))
+            judge_toolseq(case, steps, lambda c, w, f=None: ctx.property_failure(dict(c, corpus=fname), w), lambda *a: None)
+            for st, want in zip(steps, rec.get("expect_status", [])):
+                if want is not None and st["fresh"]["validation_status"] != want:
+                    ctx.property_failure({"corpus": fname, "step": st["step"], "observed": st["fresh"], "expected": want},
+                                         "corpus case: validation status (fresh instance) differs from the recorded one")
+            continue
         if rec.get("kind") == "schema-reuse":
             case = {"schema": name, "schema_text": rec.get("schema_text"), "texts": rec["texts"], "order": rec["order"],
                     "same_validator": rec.get("same_validator", False)}
             steps = reuse_sequence(name, rec["texts"], rec["order"], case["same_validator"])
             ctx.count(2 * len(steps))
-            judge_reuse(case, steps, lambda c, w: ctx.property_failure(dict(c, corpus=fname), w), lambda *a: None)
+            judge_reuse(case, steps, lambda c, w, f=None: ctx.property_failure(dict(c, corpus=fname), w), lambda *a: None)
             for st, want in zip(steps, rec.get("expect", [])):
                 if [list(p) for p in st["fresh"]] != want:
                     ctx.property_failure({"corpus": fname, "step": st["step"], "observed": st["fresh"], "expected": want},
@@ -896,7 +1088,8 @@ def run_corpus(ctx, root):
         differs = any(o != observed[0] for o in observed[1:])
         if rec.get("finding"):
             if fname.startswith("finding:"):
-                ctx.finding_witness(rec["finding"], differs and has_nonfinite(texts[0]))
+                clause = has_nonfinite(texts[0]) if rec["finding"] == F_NONFINITE else blank_unloadable_front(texts[0])
+                ctx.finding_witness(rec["finding"], differs and clause)
             continue
         if differs:
             ctx.property_failure({"corpus": fname, "schema": rec.get("schema_text"), "schema_name": name, "texts": texts, "observed": observed},
@@ -940,6 +1133,12 @@ def replay(ctx, case):
         if c.get("schema"):
             write_schema(root, c["schema_name"], c["schema"])
         name = c["schema_name"]
+        if c.get("kind") == "tool-reuse":
+            steps = tool_sequence(name, c["calls"], root)
+            for st in steps:
+                print("step %d diff=%s readonly_broken=%s status=%s fresh=%s" % (st["step"], st["diff"], st["readonly_broken"],
+                                                                                   st["got"]["validation_status"], st["fresh"]["validation_status"]))
+            return 1 if any(st["diff"] or st["readonly_broken"] for st in steps) else 0
         if c.get("kind") == "schema-reuse":
             steps = reuse_sequence(name, c["texts"], c["order"], c.get("same_validator", False))
             bad = [st for st in steps if st["reused"] != st["fresh"] or st["changed"]]
@@ -984,7 +1183,15 @@ def run(ctx):
         "schema-reuse stream (Validator API): per generated schema (most fields routed to a custom target NOT declared in POLICY.TARGETS) "
         "ONE loaded SchemaDefinition and ONE section_schemas dict serve a shuffled sequence of 3-6 documents (validated block + blocks "
         "annotated KEY[->TARGET] naming those custom targets), every document validated at least twice; each verdict must equal the one "
-        "with a freshly loaded schema, and the object must be unchanged (attribute-wise) after every call." % reps)
+        "with a freshly loaded schema, and the object must be unchanged (attribute-wise) after every call. "
+        "tool-instance-reuse stream: per schema of repairable fields (ENUM members, TYPE[NUMBER]) 1-3 small documents that mostly HAVE a "
+        "schema repair available (enum member in another case, numeral written as a string), each in canonical text + 2 respellings; ONE "
+        "ValidateTool and ONE WriteTool serve an interleaving of fix=False / fix=True / fix=False on the identical text, respellings, "
+        "octave_write lenient on/off, and a shuffled second pass; every response must equal the response of a FRESH instance for the same "
+        "call (timestamps and message texts masked) and every fix=False response must carry emit(parse_with_warnings(x)[0]). "
+        "frontmatter: 30%% of the schemas declare FRONTMATTER fields (required/optional/all-optional), 1 in 20 documents goes against the "
+        "shipped SKILL schema; documents carry mapping / scalar / list / comment-only / broken-YAML / no frontmatter, and respellings of "
+        "documents without frontmatter get, with p=0.35, a BLANK frontmatter block (5 spellings) that canonicalisation drops." % reps)
     root = tempfile.mkdtemp(prefix="c09_")
     old = os.getcwd()
     rng = ctx.rng
@@ -1050,13 +1257,16 @@ def run(ctx):
         for i, (s, d) in enumerate(cases):
             use_meta = (i % 5 == 4)            # every fifth document is validated against the builtin dict schema META
             sname = "META" if use_meta else s["name"]
+            if i % 20 == 7:
+                use_meta, sname = True, "SKILL"   # the shipped schema file that declares a FRONTMATTER block
             cli = 1 if (use_meta or i % 7 == 0) else 0
             if not ctx.quick() and i % 400 == 0:
                 cli = 2                          # real subprocess
             # full = every surface on every text; otherwise every surface on the canonical text and a rotating subset on the others
             work_items.append({"id": i, "schema": sname, "schema_text": None if use_meta else s["text"], "doc": d, "seed": rng.random(),
                                "reps": reps, "cli": cli, "second": PROFILES[i % 4], "topy": i % 3 == 0, "full": ctx.quick() or i % 10 == 0})
-            ctx.hist("schema_kind", "builtin META" if use_meta else "generated")
+            ctx.hist("schema_kind", ("shipped " + sname) if use_meta else ("generated+FRONTMATTER" if s["fm"] else "generated"))
+            ctx.hist("frontmatter_of_document", "absent" if d["front"] is None else ("mapping" if ":" in d["front"] and not d["front"].startswith(("#", "-")) and "[x" not in d["front"] else "scalar/list/comment/broken"))
         # ---- schema-object-reuse stream (Validator API): one loaded SchemaDefinition per sequence
         from octave_mcp.core.parser import parse_with_warnings as _pww
         reuse_items = []
@@ -1090,24 +1300,57 @@ def run(ctx):
             ctx.hist("reuse_sequence_length", len(order))
             reuse_items.append({"id": len(reuse_items), "schema": rs["name"], "schema_text": rtxt, "texts": texts, "order": order,
                                 "same_validator": ri % 2 == 1})
+        # ---- tool-instance-reuse stream: documents that HAVE a schema repair available, one ValidateTool + one WriteTool per sequence
+        tool_items = []
+        for ti_ in range(ctx.scale(120, 2000)):
+            ts = gen_repair_schema(rng, ti_)
+            ttxt = schema_text(ts)
+            write_schema(root, ts["name"], ttxt)
+            by_doc = []
+            for _ in range(rng.randint(1, 3)):
+                d = gen_repair_doc(rng, g2, ts)
+                try:
+                    canon_t = doccases.impl_emit(docprops.expected(d))
+                    _pww(canon_t)
+                except Exception:  # noqa
+                    continue
+                texts = [canon_t]
+                for _k in range(2):
+                    r2 = random.Random(rng.random())
+                    d2, _n = respell_numbers(d, r2)
+                    t2 = render.render(d2, r2)[0]
+                    try:
+                        if json.loads(json.dumps(astcodec.doc_to_neutral(_pww(t2)[0]))) == json.loads(json.dumps(docprops.expected(d))):
+                            texts.append(t2)
+                    except Exception:  # noqa
+                        pass
+                by_doc.append(texts)
+            if not by_doc:
+                continue
+            calls = gen_tool_calls(rng, by_doc)
+            ctx.hist("toolseq_length", len(calls))
+            tool_items.append({"id": len(tool_items), "schema": ts["name"], "schema_text": ttxt, "calls": calls})
         phases["documents"] = round(time.time() - t0, 1)
         # ---- implementation side, in parallel (texts are built, observed and judged in the workers)
         nproc = min(16, os.cpu_count() or 4)
         mp = multiprocessing.get_context("fork")
         with mp.Pool(nproc, initializer=_init_worker, initargs=(root,)) as pool:
             reuse_results = pool.map(work_reuse, reuse_items, chunksize=max(1, min(20, len(reuse_items) // (nproc * 4) or 1)))
+            reuse_results += pool.map(work_toolseq, tool_items, chunksize=max(1, min(10, len(tool_items) // (nproc * 4) or 1)))
             results = pool.map(work, work_items, chunksize=max(1, min(50, len(work_items) // (nproc * 8))))
         for rr in reuse_results:
             ctx.count(rr["count"])
             for name_, buckets in rr["hists"].items():
                 for bk, n in buckets.items():
                     ctx.hist(name_, bk, n)
-            for case_, what in rr["failures"]:
-                ctx.property_failure(case_, what)
+            for case_, what, fid_ in rr["failures"]:
+                ctx.property_failure(case_, what, finding=fid_)
             if rr["sample"]:
                 ctx.sample(rr["sample"])
         ctx.extra["schema_reuse_sequences"] = len(reuse_items)
-        ctx.extra["schema_reuse_validations"] = sum(rr["steps"] for rr in reuse_results)
+        ctx.extra["schema_reuse_validations"] = sum(rr["steps"] for rr in reuse_results[:len(reuse_items)])
+        ctx.extra["tool_reuse_sequences"] = len(tool_items)
+        ctx.extra["tool_reuse_calls"] = sum(rr["steps"] for rr in reuse_results[len(reuse_items):])
         phases["observe"] = round(time.time() - t0, 1)
         by_id = {r["id"]: r for r in results}
         lines, owners, topy = [], [], []
@@ -1122,8 +1365,8 @@ def run(ctx):
             n_texts += sum(int(k) * v for k, v in t["hists"].get("texts_per_document", {}).items())
             for k in t["keys"]:
                 ctx.nontrivial(k)
-            for case_, what in t["failures"]:
-                ctx.property_failure(case_, what)
+            for case_, what, fid_ in t["failures"]:
+                ctx.property_failure(case_, what, finding=fid_)
             if r["sample"]:
                 ctx.sample(r["sample"])
             if r["model"] and not r["model"].startswith("OOM:"):
